@@ -40,6 +40,8 @@ def run(ctx):
     ctx.coq_props()
     from ..density import density_correspondence
     density_correspondence(ctx)
+    from ..cognitive import cognitive_correspondence
+    cognitive_correspondence(ctx)
     nh = 14 if ctx.is_quick else 150
     recs = []
     for kind in S.ALL_KINDS:
